@@ -147,6 +147,24 @@ def run(case, ctx):
         stream = json.loads(json.dumps(stream))
         stream = [("" + t[:1] + t[1:]) for t in stream]
         LOG.n("c19.stream_of_recreated_strings")
+    if case.get("stream_seed", 0) % 5 == 3 and len(stream) >= 2:
+        # a generation loop that annotated a prefix of this very stream before and hit a malformed token (get_info raises), or that
+        # annotated a shorter prefix successfully: what such an earlier call leaves on the tokeniser must not reach this one
+        import random
+        r8 = random.Random(f"c19-earlier:{case.get('stream_seed', 0)}")
+        k = r8.randrange(1, len(stream))
+        junk = r8.choice(["rst_1x", "no_such_token", "pit_abc", "", "tsg_04"])
+        try:
+            tok.get_info(list(stream[:k]) + [junk] + list(stream[k:k + 2]), flag_impute_values=case["impute"])
+            LOG.n("c19.earlier_call.malformed_token_accepted")
+        except Exception:
+            LOG.n("c19.earlier_call.raised")
+        if r8.random() < 0.5:
+            try:
+                tok.get_info(list(stream[:k]), flag_impute_values=case["impute"])
+                LOG.n("c19.earlier_call.prefix_annotated")
+            except Exception:
+                LOG.n("c19.earlier_call.prefix_raised")
     info = tok.get_info(stream, flag_impute_values=case["impute"])
     n = len(stream)
     keys = ("info_position", "info_time", "info_time_bar", "info_pitch", "info_circle_of_fifths")
